@@ -66,6 +66,7 @@ import (
 	"testing/synctest"
 	"time"
 
+	proxyproto "github.com/armon/go-proxyproto"
 	"golang.org/x/crypto/bcrypt"
 
 	"github.com/fabiolb/fabio/config"
@@ -373,7 +374,18 @@ type c12Route struct {
 	Allow  []string `json:"allow,omitempty"` // the items between the commas
 	Deny   []string `json:"deny,omitempty"`
 	Auth   string   `json:"auth,omitempty"`
-	ref    *c12Ref
+	// Pxy: the TCP listener of the route expects the PROXY protocol (pxyproto=true): it is wrapped with
+	// go-proxyproto exactly as proxy.ListenTCP wraps a real listener; PxyTimeoutMs is the listener's pxytimeout.
+	Pxy          bool `json:"listener_pxyproto,omitempty"`
+	PxyTimeoutMs int  `json:"listener_pxytimeout_ms,omitempty"`
+	ref          *c12Ref
+}
+
+// c12PxyHdr is what a client connection sends before its request or stream on a listener with pxyproto=true.
+type c12PxyHdr struct {
+	Kind string `json:"kind,omitempty"`           // "" no header | TCP4 | TCP6 | UNKNOWN
+	Src  string `json:"source_address,omitempty"` // the client address the header names (TCP4/TCP6)
+	Line string `json:"line,omitempty"`           // the header as written, without the final CR LF
 }
 
 type c12Conn struct {
@@ -382,6 +394,8 @@ type c12Conn struct {
 	Route  int    `json:"route"`
 	Early  bool   `json:"closes_at_once,omitempty"`
 	Chunks []int  `json:"chunks,omitempty"`
+	// Addr is the socket address; on a pxyproto listener the connection starts with Hdr
+	Hdr c12PxyHdr `json:"proxy_header,omitempty"`
 }
 
 type c12Expect struct {
@@ -396,6 +410,11 @@ type c12Expect struct {
 	ordered     bool // derived from a pair that logged in earlier on the same client (strictly earlier in time)
 	epoch       int  // number of the epoch (0 = before any change of an htpasswd file)
 	window      bool // sent between a change of the file and the end of the refresh interval
+	ws          bool // a websocket upgrade request
+	hdr         string
+	// closedOK: the connection starts with "PROXY UNKNOWN": the judged address is the socket address, and a
+	// connection that is closed without an answer counts as refused (the PROXY layer may turn the connection down)
+	closedOK bool
 }
 
 // c12Change puts the path of a scheme's htpasswd file into another state.
@@ -441,10 +460,15 @@ type c12Scenario struct {
 	// A scheme with an interval has fabio's reload goroutine (a task on the simulated clock).
 	Refresh map[string]int `json:"htpasswd_refresh_s,omitempty"`
 	// Epochs: epoch 0 has no changes; every later one starts with changes of htpasswd files.
-	Epochs  []c12Epoch  `json:"epochs"`
-	Clients []h2Client  `json:"http_clients,omitempty"`
-	Conns   []c12Conn   `json:"tcp_clients,omitempty"`
-	Expect  []c12Expect `json:"reference"`
+	Epochs []c12Epoch `json:"epochs"`
+	// HTTPPxy: the HTTP listener expects the PROXY protocol (pxyproto=true, wrapped as proxy.ListenTCP does).
+	// ClientHdr[i] is the header every connection of http_clients[i] starts with (addr of the client = socket address).
+	HTTPPxy          bool        `json:"http_listener_pxyproto,omitempty"`
+	HTTPPxyTimeoutMs int         `json:"http_listener_pxytimeout_ms,omitempty"`
+	ClientHdr        []c12PxyHdr `json:"http_client_proxy_headers,omitempty"`
+	Clients          []h2Client  `json:"http_clients,omitempty"`
+	Conns            []c12Conn   `json:"tcp_clients,omitempty"`
+	Expect           []c12Expect `json:"reference"`
 }
 
 // keysAt lists the upstreams of route j in table version v (0 = the commands the run starts with).
@@ -607,6 +631,51 @@ func c12GenRules(g *simcore.Tape, rt *c12Route, earlier []c12Route) {
 		rt.Deny = items()
 	}
 	rt.ref = c12NewRef(rt.Allow, rt.Deny)
+}
+
+var c12PxyTimeouts = []int{250, 0, 1000}
+
+// line writes the header for a connection whose socket has source port sport.
+func (h c12PxyHdr) line(sport, dport int) string {
+	switch h.Kind {
+	case "":
+		return ""
+	case "UNKNOWN":
+		return "PROXY UNKNOWN\r\n"
+	}
+	dst := "10.9.0.1"
+	if h.Kind == "TCP6" {
+		dst = "2001:db8:9::1"
+	}
+	return fmt.Sprintf("PROXY %s %s %s %d %d\r\n", h.Kind, h.Src, dst, sport, dport)
+}
+
+// c12GenHdr decides how a connection of the client whose address the rules are to judge (peer) presents itself on
+// a listener with pxyproto=true: mostly with a PROXY v1 header that names peer - the socket then belongs to a
+// load balancer, whose own address the rules mostly judge the other way -, else with "PROXY UNKNOWN" or with no
+// header at all: then the socket address is the peer. Returns the header, the socket address and the address the
+// reference judges.
+func c12GenHdr(g *simcore.Tape, rt *c12Route, peer netip.Addr) (hdr c12PxyHdr, sock, judged netip.Addr) {
+	switch simcore.Pick(g, []string{"addr", "addr", "none", "addr", "unknown", "addr", "addr"}) {
+	case "none":
+		return c12PxyHdr{}, peer, peer
+	case "unknown":
+		return c12PxyHdr{Kind: "UNKNOWN"}, peer, peer
+	}
+	src := peer.WithZone("") // a header cannot carry a zone
+	switch {
+	case g.Chance(20):
+		sock = c12Addr(g, rt)
+	case rt.ref.rejects(src):
+		sock = c12Admitted(g, rt)
+	default:
+		sock = c12Refused(g, rt)
+	}
+	fam := "TCP4"
+	if !src.Is4() {
+		fam = "TCP6"
+	}
+	return c12PxyHdr{Kind: fam, Src: src.String()}, sock, src
 }
 
 func c12HostPort(a netip.Addr, port int) string {
@@ -849,6 +918,7 @@ type c12GenState struct {
 	// the last change: the state at the end of the previous epoch and every state since, the present one last
 	cands map[string][]*c12File
 	epoch int
+	hdr   c12PxyHdr // the PROXY header of the connections of the client whose requests are being generated
 }
 
 // refreshing lists the schemes that have a refresh interval, in a fixed order.
@@ -926,7 +996,15 @@ func (gs *c12GenState) request(g *simcore.Tape, cl *h2Client, c int, peer netip.
 	}
 	authz, attempt, ordered := own.next(g, other, c, defined, gs.cur[own.scheme].pairs(), gs.cur[other.scheme].pairs(), gs.epoch > 0 && sc.Refresh[own.scheme] > 0)
 	rq.Headers = append(rq.Headers, authz...)
-	if session && !last && rq.Method != "POST" && g.Chance(20) {
+	// a websocket upgrade request: the access decision comes before the choice of the handler
+	// (not while the clock moves under a client: the websocket handler gives the upstream 1 s for its answer)
+	ws := g.Chance(12) && !window
+	if ws {
+		rq.Method = "GET"
+		rq.Headers = append(rq.Headers, h2Header{"Upgrade", simcore.Pick(g, []string{"websocket", "Websocket"})}, h2Header{"Connection", "Upgrade"},
+			h2Header{"Sec-WebSocket-Key", "dGhlIHNhbXBsZSBub25jZQ=="}, h2Header{"Sec-WebSocket-Version", "13"})
+	}
+	if session && !last && rq.Method != "POST" && !ws && g.Chance(20) {
 		// the next attempt of the session arrives on a new connection (asked for on requests
 		// without a body only: when a refused upload also asks to close, net/http closes with
 		// the body unread and the reset may overtake the answer, which is TCP and not the gate)
@@ -948,6 +1026,9 @@ func (gs *c12GenState) request(g *simcore.Tape, cl *h2Client, c int, peer netip.
 	if !h2NoBody(rq.Method, rq.Resp.Status) {
 		rq.Resp.Body = g.Bytes(g.Range(0, 500))
 	}
+	if ws {
+		rq.Resp = h2Resp{Status: 101} // the upstream accepts the upgrade, then bytes flow both ways (c12HTTPUpstream)
+	}
 	rq.Resp.BodyLen = len(rq.Resp.Body)
 	cl.Reqs = append(cl.Reqs, rq)
 
@@ -958,7 +1039,13 @@ func (gs *c12GenState) request(g *simcore.Tape, cl *h2Client, c int, peer netip.
 	v1, w1 := rt.ref.access(peer, lines)
 	v2, w2 := gs.authVerdict(rt.Auth, av, window)
 	v, w := c12Combine(v1, w1, v2, w2)
-	ex := c12Expect{ID: rq.ID, Verdict: v, Why: w, route: ri, proto: "http", epoch: gs.epoch, window: window}
+	ex := c12Expect{ID: rq.ID, Verdict: v, Why: w, route: ri, proto: "http", epoch: gs.epoch, window: window, ws: ws, hdr: gs.hdr.Kind}
+	if gs.hdr.Kind == "UNKNOWN" {
+		ex.closedOK = true
+		if ex.Verdict == c12Admit {
+			ex.Verdict = c12Either // no demand that a connection without client address be served
+		}
+	}
 	if rt.Auth != "" {
 		ex.Attempt = attempt
 		ex.authVerdict, ex.ordered = v2, ordered && defined
@@ -979,7 +1066,15 @@ func (gs *c12GenState) laterClient(g *simcore.Tape, window bool) int {
 	focus := simcore.Pick(g, reloading)
 	c := len(sc.Clients)
 	peer := c12Admitted(g, &sc.Routes[focus])
-	cl := h2Client{Addr: c12HostPort(peer, 5000+100*c)}
+	sock := peer
+	gs.hdr = c12PxyHdr{}
+	if sc.HTTPPxy && !window {
+		// (the clock moves while a window client is at work: its header could arrive after the listener's pxytimeout,
+		// which turns the header into the first bytes of the stream; such a client sends no header)
+		gs.hdr, sock, peer = c12GenHdr(g, &sc.Routes[focus], peer)
+	}
+	sc.ClientHdr = append(sc.ClientHdr, gs.hdr)
+	cl := h2Client{Addr: c12HostPort(sock, 5000+100*c)}
 	n := g.Range(1, 4)
 	for k := 0; k < n; k++ {
 		ri := focus
@@ -1133,6 +1228,11 @@ func c12Gen(g *simcore.Tape, thorough bool) *c12Scenario {
 		sc.Focus = simcore.Pick(g, []string{"decision", "all"})
 		sc.Stick = simcore.Pick(g, []int{1, 3, 8})
 	}
+	// inbound PROXY protocol: in a third of the runs listeners are configured with pxyproto=true
+	pxyRun := g.Chance(35)
+	if pxyRun && mode != 1 && g.Chance(75) {
+		sc.HTTPPxy, sc.HTTPPxyTimeoutMs = true, simcore.Pick(g, c12PxyTimeouts)
+	}
 	var httpRoutes, tcpRoutes []int
 	if mode != 1 {
 		n := g.Range(1, 3)
@@ -1166,6 +1266,9 @@ func c12Gen(g *simcore.Tape, thorough bool) *c12Scenario {
 			c12GenRules(g, &rt, sc.Routes)
 			if g.Chance(20) {
 				rt.More = []string{fmt.Sprintf("tup%db.sim:9000", j)}
+			}
+			if pxyRun && g.Chance(75) {
+				rt.Pxy, rt.PxyTimeoutMs = true, simcore.Pick(g, c12PxyTimeouts)
 			}
 			tcpRoutes = append(tcpRoutes, len(sc.Routes))
 			sc.Routes = append(sc.Routes, rt)
@@ -1211,7 +1314,13 @@ func c12Gen(g *simcore.Tape, thorough bool) *c12Scenario {
 			default:
 				peer = c12Addr(g, &sc.Routes[focus])
 			}
-			cl := h2Client{Addr: c12HostPort(peer, 5000+100*c)}
+			sock := peer
+			gs.hdr = c12PxyHdr{}
+			if sc.HTTPPxy {
+				gs.hdr, sock, peer = c12GenHdr(g, &sc.Routes[focus], peer)
+			}
+			sc.ClientHdr = append(sc.ClientHdr, gs.hdr)
+			cl := h2Client{Addr: c12HostPort(sock, 5000+100*c)}
 			n := g.Range(1, 3)
 			if hot >= 0 {
 				n = g.Range(2, 4) // what one peer's check leaves behind meets the next request of the other
@@ -1262,12 +1371,20 @@ func c12Gen(g *simcore.Tape, thorough bool) *c12Scenario {
 			default:
 				peer = c12Addr(g, rt)
 			}
+			cn := c12Conn{ID: fmt.Sprintf("t%d", c), Route: ri, Early: g.Chance(10)}
+			sock := peer
+			if rt.Pxy && !cn.Early { // (a connection that closes at once sends no header either)
+				cn.Hdr, sock, peer = c12GenHdr(g, rt, peer)
+			}
 			peers = append(peers, peer)
-			cn := c12Conn{ID: fmt.Sprintf("t%d", c), Addr: c12HostPort(peer, 6000+100*c), Route: ri, Early: g.Chance(10)}
+			cn.Addr = c12HostPort(sock, 6000+100*c)
 			cn.Chunks = c07GenChunks(g, 300)
 			sc.Conns = append(sc.Conns, cn)
 			v, w := rt.ref.access(peer, nil)
-			sc.Expect = append(sc.Expect, c12Expect{ID: cn.ID, Verdict: v, Why: w, route: ri, proto: rt.Proto})
+			if cn.Hdr.Kind == "UNKNOWN" && v == c12Admit {
+				v = c12Either // no demand that a connection without client address be served
+			}
+			sc.Expect = append(sc.Expect, c12Expect{ID: cn.ID, Verdict: v, Why: w, route: ri, proto: rt.Proto, hdr: cn.Hdr.Kind})
 		}
 	}
 	// the life of the htpasswd files: 1-4 (thorough 1-6) epochs, each opened by one change (1 in 5: two, less than one
@@ -1414,8 +1531,40 @@ type c12State struct {
 	entered  int // requests and connections that have reached a handler
 	inflight map[string]int
 	dials    []c12Dial
-	byAddr   map[string]string // peer address as fabio sees it -> tcp client id
+	byAddr   map[string]string // socket address of a tcp client -> its id
 	tcp      map[string]*c12TCPResult
+}
+
+// On a pxyproto listener the harness must not ask an accepted connection for its RemoteAddr (that would read the
+// PROXY header before fabio does) and tcp.Server hands its handler a wrapper of its own. So the socket, below the
+// PROXY layer, carries the id of its client in its local address, which every layer above passes through
+// unchanged; tcp.Server is given the genuine *proxyproto.Conn.
+type c12SockLn struct {
+	net.Listener
+	st *c12State
+}
+
+type c12TaggedAddr struct {
+	net.Addr
+	id string
+}
+
+type c12TaggedConn struct {
+	net.Conn
+	id string
+}
+
+func (c *c12TaggedConn) LocalAddr() net.Addr { return c12TaggedAddr{c.Conn.LocalAddr(), c.id} }
+
+func (l *c12SockLn) Accept() (net.Conn, error) {
+	c, err := l.Listener.Accept()
+	if err != nil {
+		return c, err
+	}
+	l.st.mu.Lock()
+	id := l.st.byAddr[c.RemoteAddr().String()]
+	l.st.mu.Unlock()
+	return &c12TaggedConn{c, id}, nil
 }
 
 func (st *c12State) enter(id string) {
@@ -1715,7 +1864,12 @@ func runC12(r *simcore.Run) {
 			c12Install(r, c12Table(sc, rebuilt))
 		}}}
 	})
-	e.serve(nil)
+	if sc.HTTPPxy {
+		r.Probe("pxyproto_http_listener")
+		c12ServePxy(e, time.Duration(sc.HTTPPxyTimeoutMs)*time.Millisecond)
+	} else {
+		e.serve(nil)
+	}
 
 	// upstreams and TCP listeners
 	var servers []*tcp.Server
@@ -1729,7 +1883,7 @@ func runC12(r *simcore.Run) {
 		rt := &sc.Routes[i]
 		if rt.Proto == "http" {
 			for _, k := range sc.keys(i) {
-				e.upstream(k, simnet.ListenOpts{}, nil)
+				c12HTTPUpstream(e, k)
 			}
 			continue
 		}
@@ -1750,11 +1904,23 @@ func runC12(r *simcore.Run) {
 			r.Trouble("listen %s: %v", rt.Listen, err)
 			return
 		}
+		// the listener as proxy.ListenTCP builds it (which itself needs a real socket): PROXY protocol wrapping when
+		// the listener is configured with pxyproto=true
+		var top net.Listener = ln
+		if rt.Pxy {
+			r.Probe("pxyproto_tcp_listener")
+			top = &proxyproto.Listener{Listener: &c12SockLn{ln, st}, ProxyHeaderTimeout: time.Duration(rt.PxyTimeoutMs) * time.Millisecond}
+		}
 		srv := &tcp.Server{Handler: tcp.HandlerFunc(func(in net.Conn) error {
-			from := in.RemoteAddr().String() // fabio code with scheduling points: not under the harness lock
-			st.mu.Lock()
-			id := st.byAddr[from]
-			st.mu.Unlock()
+			var id string
+			if ta, ok := in.LocalAddr().(c12TaggedAddr); ok {
+				id = ta.id
+			} else {
+				from := in.RemoteAddr().String() // fabio code with scheduling points: not under the harness lock
+				st.mu.Lock()
+				id = st.byAddr[from]
+				st.mu.Unlock()
+			}
 			st.enter(id)
 			defer st.leave(id)
 			return h.ServeTCP(in)
@@ -1762,9 +1928,9 @@ func runC12(r *simcore.Run) {
 		servers = append(servers, srv)
 		if sc.Tasked {
 			// the accept loop is a task, so the goroutine fabio starts per connection is a child task
-			e.d.Sim.Spawn(fmt.Sprintf("tsrv%d", i), func() { srv.Serve(ln) })
+			e.d.Sim.Spawn(fmt.Sprintf("tsrv%d", i), func() { srv.Serve(top) })
 		} else {
-			go srv.Serve(ln)
+			go srv.Serve(top)
 		}
 	}
 
@@ -1774,7 +1940,7 @@ func runC12(r *simcore.Run) {
 	}
 	start := func(idx []int) {
 		for _, i := range idx {
-			e.client(&sc.Clients[i])
+			c12HTTPClient(e, sc, i)
 		}
 	}
 	// epoch 0: the files are as fabio has loaded them
@@ -1894,7 +2060,7 @@ func runC12(r *simcore.Run) {
 	}
 	for ci := range sc.Clients {
 		for qi := range sc.Clients[ci].Reqs {
-			c12CheckHTTP(r, e, sc, &sc.Clients[ci], &sc.Clients[ci].Reqs[qi], expect)
+			c12CheckHTTP(r, e, sc, ci, &sc.Clients[ci].Reqs[qi], expect)
 		}
 	}
 	for i := range sc.Conns {
@@ -1946,6 +2112,192 @@ func runC12(r *simcore.Run) {
 	}
 }
 
+// c12ServePxy is h2Env.serve for a listener with pxyproto=true: the real http.Server in front of the proxy, its
+// listener wrapped as proxy.ListenTCP wraps a real one.
+func c12ServePxy(e *h2Env, timeout time.Duration) {
+	ln, err := e.net.Listen(h2FabioAddr, simnet.ListenOpts{})
+	if err != nil {
+		e.r.Trouble("listen: %v", err)
+		e.r.Abort()
+	}
+	var h http.Handler = e.proxy
+	if e.wrap != nil {
+		h = e.wrap(h)
+	}
+	counted := http.HandlerFunc(func(w http.ResponseWriter, req *http.Request) {
+		e.mu.Lock()
+		e.handlers++
+		e.mu.Unlock()
+		h.ServeHTTP(w, req)
+	})
+	e.srv = &http.Server{Handler: counted}
+	go e.srv.Serve(&proxyproto.Listener{Listener: ln, ProxyHeaderTimeout: timeout})
+}
+
+func c12IsWS(rq *h2Req) bool {
+	for _, h := range rq.Headers {
+		if h.K == "Upgrade" {
+			return true
+		}
+	}
+	return false
+}
+
+// c12HTTPUpstream is a raw recording upstream like h2Env.upstream (status, body and write sizes of the scripted
+// reply) that also accepts websocket upgrades: it answers 101, greets ("ws-up <id>"), waits for the client's line
+// and acknowledges it ("ws-ack <id>"), so that an admitted upgrade shows bytes flowing both ways.
+func c12HTTPUpstream(e *h2Env, key string) {
+	ln, err := e.net.Listen(key, simnet.ListenOpts{})
+	if err != nil {
+		e.r.Trouble("listen %s: %v", key, err)
+		e.r.Abort()
+	}
+	serve := func(c net.Conn) {
+		defer c.Close()
+		br := bufio.NewReader(c)
+		for {
+			req, err := http.ReadRequest(br)
+			if err != nil {
+				return
+			}
+			body, berr := io.ReadAll(req.Body)
+			s := &h2Seen{Upstream: key, Method: req.Method, RequestURI: req.RequestURI, Proto: req.Proto, Host: req.Host,
+				Header: req.Header.Clone(), Body: body, BodyErr: berr, TE: req.TransferEncoding, CL: req.ContentLength,
+				At: time.Now(), Remote: c.RemoteAddr().String()}
+			id := req.Header.Get("X-Sim-Id")
+			e.mu.Lock()
+			e.seen[id] = append(e.seen[id], s)
+			sc := e.script[id]
+			e.mu.Unlock()
+			e.r.Tracef("upstream %s got %s %s id=%s body=%d", key, req.Method, req.RequestURI, id, len(body))
+			if sc == nil {
+				io.WriteString(c, "HTTP/1.1 599 unscripted\r\nContent-Length: 0\r\n\r\n")
+				continue
+			}
+			if req.Header.Get("Upgrade") != "" {
+				io.WriteString(c, "HTTP/1.1 101 Switching Protocols\r\nUpgrade: websocket\r\nConnection: Upgrade\r\nSec-WebSocket-Accept: s3pPLMBiTxaQ9kYGzzhZRbK+xOo=\r\n\r\n")
+				io.WriteString(c, "ws-up "+id+"\n")
+				line, _ := br.ReadString('\n')
+				e.mu.Lock()
+				s.Body = []byte(line)
+				e.mu.Unlock()
+				e.r.Tracef("upstream %s tunnel id=%s got %q", key, id, line)
+				if line != "" {
+					io.WriteString(c, "ws-ack "+id+"\n")
+				}
+				return
+			}
+			rs := sc.Resp
+			if err := h2WriteChunks(c, h2RenderResponse(req.Method, &rs), rs.Chunks); err != nil {
+				return
+			}
+		}
+	}
+	go func() {
+		for {
+			c, err := ln.Accept()
+			if err != nil {
+				return
+			}
+			go serve(c)
+		}
+	}()
+}
+
+// c12HTTPClient is h2Env.client (raw HTTP/1.1 writer, http.ReadResponse as parser, keep-alive) for client ci of the
+// scenario with two additions: every connection it opens starts with the client's PROXY header (written in one
+// stream with the first request, so the segmentation cuts through it), and a websocket upgrade request that is
+// answered with 101 is followed by the exchange of c12HTTPUpstream over the upgraded connection.
+func c12HTTPClient(e *h2Env, sc *c12Scenario, ci int) {
+	cl := &sc.Clients[ci]
+	hdr := sc.ClientHdr[ci]
+	e.mu.Lock()
+	e.clients++
+	for i := range cl.Reqs {
+		e.script[cl.Reqs[i].ID] = &cl.Reqs[i]
+	}
+	e.mu.Unlock()
+	go func() {
+		defer func() {
+			e.mu.Lock()
+			e.done++
+			e.mu.Unlock()
+		}()
+		base := e.netAddr(cl.Addr)
+		var c net.Conn
+		var br *bufio.Reader
+		closeConn := func() {
+			if c != nil {
+				c.Close()
+				c = nil
+			}
+		}
+		defer closeConn()
+		nconn := 0
+		for i := range cl.Reqs {
+			rq := &cl.Reqs[i]
+			res := &h2Result{}
+			e.mu.Lock()
+			e.results[rq.ID] = res
+			e.mu.Unlock()
+			raw := h2RenderRequest(rq)
+			if c == nil {
+				from := &net.TCPAddr{IP: base.IP, Port: base.Port + nconn, Zone: base.Zone}
+				nconn++
+				nc, err := e.net.Dial(e.r.Ctx(), from, h2FabioAddr, 0)
+				if err != nil {
+					res.Err = err
+					continue
+				}
+				c, br = nc, bufio.NewReader(nc)
+				if hdr.Kind != "" {
+					e.r.Tracef("client %s connection %d starts with proxy header %s %s", cl.Addr, nconn, hdr.Kind, hdr.Src)
+				}
+				raw = append([]byte(hdr.line(from.Port, 9999)), raw...)
+			}
+			res.SentAt = time.Now()
+			e.r.Tracef("client %s sends %s %s id=%s", cl.Addr, rq.Method, rq.Path, rq.ID)
+			if err := h2WriteChunks(c, raw, rq.Chunks); err != nil {
+				res.Err = err
+				closeConn()
+				continue
+			}
+			resp, err := http.ReadResponse(br, &http.Request{Method: rq.Method})
+			for err == nil && resp.StatusCode >= 100 && resp.StatusCode < 200 && resp.StatusCode != 101 {
+				res.Interim = append(res.Interim, resp.StatusCode)
+				resp, err = http.ReadResponse(br, &http.Request{Method: rq.Method})
+			}
+			if err != nil {
+				res.Err = err
+				closeConn()
+				continue
+			}
+			res.HeaderAt = time.Now()
+			res.Status, res.Proto, res.Header = resp.StatusCode, resp.Proto, resp.Header.Clone()
+			res.TE, res.CL = resp.TransferEncoding, resp.ContentLength
+			if resp.StatusCode == 101 {
+				// the connection is a tunnel to the upstream now
+				greeting, _ := br.ReadString('\n')
+				if greeting != "" {
+					io.WriteString(c, "ws-cl "+rq.ID+"\n")
+				}
+				ack, _ := br.ReadString('\n')
+				res.Body = []byte(greeting + ack)
+				res.DoneAt = time.Now()
+				e.r.Tracef("client %s got %d id=%s tunnel %q", cl.Addr, res.Status, rq.ID, res.Body)
+				closeConn()
+				continue
+			}
+			res.Body, res.BodyErr = io.ReadAll(resp.Body)
+			res.DoneAt = time.Now()
+			e.r.Tracef("client %s got %d id=%s body=%d err=%v", cl.Addr, res.Status, rq.ID, len(res.Body), res.BodyErr)
+			if resp.Close || res.BodyErr != nil {
+				closeConn()
+			}
+		}
+	}()
+}
+
 func c12TCPUpstream(e *h2Env, key string) {
 	ln, err := e.net.Listen(key, simnet.ListenOpts{})
 	if err != nil {
@@ -1981,6 +2333,8 @@ func c12TCPClient(e *h2Env, st *c12State, sc *c12Scenario, cn *c12Conn) {
 	} else {
 		payload = []byte("hello from " + cn.ID + "\n")
 	}
+	// on a pxyproto listener the stream starts with the PROXY header (if the client sends one)
+	payload = append([]byte(cn.Hdr.line(from.Port, 7000)), payload...)
 	e.mu.Lock()
 	e.clients++
 	e.mu.Unlock()
@@ -1997,7 +2351,7 @@ func c12TCPClient(e *h2Env, st *c12State, sc *c12Scenario, cn *c12Conn) {
 			return
 		}
 		defer c.Close()
-		e.r.Tracef("tcp client %s connected from %s", cn.ID, cn.Addr)
+		e.r.Tracef("tcp client %s connected from %s proxy header %q", cn.ID, cn.Addr, cn.Hdr.Kind+" "+cn.Hdr.Src)
 		if cn.Early {
 			return
 		}
@@ -2026,7 +2380,8 @@ func c12AuthzOf(rq *h2Req) string {
 	return ""
 }
 
-func c12CheckHTTP(r *simcore.Run, e *h2Env, sc *c12Scenario, cl *h2Client, rq *h2Req, expect map[string]*c12Expect) {
+func c12CheckHTTP(r *simcore.Run, e *h2Env, sc *c12Scenario, ci int, rq *h2Req, expect map[string]*c12Expect) {
+	cl := &sc.Clients[ci]
 	ex := expect[rq.ID]
 	rt := &sc.Routes[rq.Route]
 	res := e.results[rq.ID]
@@ -2036,6 +2391,19 @@ func c12CheckHTTP(r *simcore.Run, e *h2Env, sc *c12Scenario, cl *h2Client, rq *h
 		return
 	}
 	what := fmt.Sprintf("%s %s (id %s) from %s via route %s allow=%q deny=%q auth=%q headers %v", rq.Method, rq.Path, rq.ID, cl.Addr, rt.Src, rt.Allow, rt.Deny, rt.Auth, rq.Headers[1:])
+	if sc.HTTPPxy {
+		what = fmt.Sprintf("%s [listener with pxyproto=true; the connection starts with %q]", what, strings.TrimSpace(sc.ClientHdr[ci].line(0, 9999)))
+		r.Probe("pxyproto_http_" + ex.hdr + "_ref_" + ex.Verdict)
+	}
+	ws, via := "", ""
+	if ex.ws {
+		ws, via = "websocket/", "-websocket"
+		what = "websocket upgrade: " + what
+		r.Probe("websocket_ref_" + ex.Verdict)
+	}
+	if ex.hdr == "TCP4" || ex.hdr == "TCP6" {
+		via += "-proxy-header"
+	}
 	if ex.Attempt != "" {
 		if u, p, ok := c12BasicCreds(c12AuthzOf(rq)); ok {
 			what += fmt.Sprintf(" [credentials %q / %q: %s]", u, p, ex.Attempt)
@@ -2061,25 +2429,39 @@ func c12CheckHTTP(r *simcore.Run, e *h2Env, sc *c12Scenario, cl *h2Client, rq *h
 		r.Probe("http_forwarded_ref_" + ex.Verdict)
 	}
 	if refused && forwarded {
-		r.Fail("upstream-contacted", "http/answered-"+fmt.Sprint(res.Status)+"-but-forwarded", "%s: the client got %d but upstream %s received the request", what, res.Status, seen[0].Upstream)
+		r.Fail("upstream-contacted", "http/"+ws+"answered-"+fmt.Sprint(res.Status)+"-but-forwarded", "%s: the client got %d but upstream %s received the request", what, res.Status, seen[0].Upstream)
 		return
+	}
+	// the PROXY layer may turn down a connection that names no client address ("PROXY UNKNOWN"): closed without an answer
+	turnedDown := ex.closedOK && res.Err != nil && !forwarded
+	served := len(seen) == 1 && c12Has(sc.keys(rq.Route), seen[0].Upstream) && res.Err == nil && res.Status == rq.Resp.Status
+	tunnel := ""
+	if ex.ws && served {
+		// admitted upgrade: 101 from the upstream, then bytes both ways
+		r.Probe("websocket_101")
+		if want := "ws-up " + rq.ID + "\nws-ack " + rq.ID + "\n"; string(res.Body) != want || string(seen[0].Body) != "ws-cl "+rq.ID+"\n" {
+			served = false
+			tunnel = fmt.Sprintf("; after the 101 the client received %q (expected %q) and the upstream %q", res.Body, want, seen[0].Body)
+		} else {
+			r.Probe("websocket_tunnelled")
+		}
 	}
 	switch ex.Verdict {
 	case c12Reject:
 		if forwarded {
-			r.Fail("http-admitted", ex.Why, "%s: the reference refuses it (%s) but upstream %s received it; client saw status=%d err=%v", what, ex.Why, seen[0].Upstream, res.Status, res.Err)
-		} else if !refused {
-			r.Fail("http-no-refusal-status", ex.Why, "%s: the reference refuses it (%s); the client must get 403 or 401 but saw status=%d err=%v", what, ex.Why, res.Status, res.Err)
+			r.Fail("http-admitted", ex.Why+via, "%s: the reference refuses it (%s) but upstream %s received it; client saw status=%d err=%v", what, ex.Why, seen[0].Upstream, res.Status, res.Err)
+		} else if !refused && !turnedDown {
+			r.Fail("http-no-refusal-status", ex.Why+via, "%s: the reference refuses it (%s); the client must get 403 or 401 but saw status=%d err=%v", what, ex.Why, res.Status, res.Err)
 		}
 	case c12Admit:
 		if refused {
-			r.Fail("http-over-denied", fmt.Sprint(res.Status)+after, "%s: rules and credentials admit it, the client got %d", what, res.Status)
-		} else if len(seen) != 1 || !c12Has(sc.keys(rq.Route), seen[0].Upstream) || res.Err != nil || res.Status != rq.Resp.Status {
-			r.Fail("http-admitted-not-served", "exchange", "%s: admitted, but upstream saw it %d times and the client got status=%d err=%v (upstream answers %d)", what, len(seen), res.Status, res.Err, rq.Resp.Status)
+			r.Fail("http-over-denied", fmt.Sprint(res.Status)+after+via, "%s: rules and credentials admit it, the client got %d", what, res.Status)
+		} else if !served {
+			r.Fail("http-admitted-not-served", ws+"exchange", "%s: admitted, but upstream saw it %d times and the client got status=%d err=%v (upstream answers %d)%s", what, len(seen), res.Status, res.Err, rq.Resp.Status, tunnel)
 		}
 	default:
-		if !refused && !(len(seen) == 1 && res.Err == nil && res.Status == rq.Resp.Status) {
-			r.Fail("http-neither-refused-nor-served", "exchange", "%s: status=%d err=%v, upstream saw it %d times", what, res.Status, res.Err, len(seen))
+		if !refused && !served && !turnedDown {
+			r.Fail("http-neither-refused-nor-served", ws+"exchange", "%s: status=%d err=%v, upstream saw it %d times%s", what, res.Status, res.Err, len(seen), tunnel)
 		}
 	}
 }
@@ -2096,9 +2478,18 @@ func c12CheckTCP(r *simcore.Run, st *c12State, sc *c12Scenario, cn *c12Conn, exp
 		return
 	}
 	what := fmt.Sprintf("tcp client %s from %s via %s route %s allow=%q deny=%q", cn.ID, cn.Addr, rt.Proto, rt.Src, rt.Allow, rt.Deny)
-	greeted := false // by an instance of the route's service
+	via := ""
+	if rt.Pxy {
+		what = fmt.Sprintf("%s [listener with pxyproto=true; the connection starts with %q]", what, strings.TrimSpace(cn.Hdr.line(0, 7000)))
+		r.Probe("pxyproto_tcp_" + ex.hdr + "_ref_" + ex.Verdict)
+		if ex.hdr == "TCP4" || ex.hdr == "TCP6" {
+			via = "-proxy-header"
+		}
+	}
+	greeted, whole := false, false // by an instance of the route's service (a connection cut off early may show a part of the greeting)
 	for _, k := range sc.keys(cn.Route) {
-		greeted = greeted || res.Got == "UP "+k+"\n"
+		greeted = greeted || (res.Got != "" && strings.HasPrefix("UP "+k+"\n", res.Got))
+		whole = whole || res.Got == "UP "+k+"\n"
 	}
 	if res.Got == "" {
 		r.Probe("tcp_closed_ref_" + ex.Verdict)
@@ -2109,8 +2500,8 @@ func c12CheckTCP(r *simcore.Run, st *c12State, sc *c12Scenario, cn *c12Conn, exp
 	case res.Got != "" && !greeted:
 		r.Fail("tcp-wrong-upstream", rt.Proto, "%s: received %q, its route points to %v", what, res.Got, sc.keys(cn.Route))
 	case ex.Verdict == c12Reject && res.Got != "":
-		r.Fail("tcp-admitted", rt.Proto+"/"+ex.Why, "%s: the reference refuses it (%s) but it was connected to the upstream (received %q)", what, ex.Why, res.Got)
-	case ex.Verdict == c12Admit && res.Got == "":
-		r.Fail("tcp-over-denied", rt.Proto, "%s: the rules admit it but the connection was closed without reaching the upstream", what)
+		r.Fail("tcp-admitted", rt.Proto+"/"+ex.Why+via, "%s: the reference refuses it (%s) but it was connected to the upstream (received %q)", what, ex.Why, res.Got)
+	case ex.Verdict == c12Admit && !whole:
+		r.Fail("tcp-over-denied", rt.Proto+via, "%s: the rules admit it but the connection was closed without reaching the upstream", what)
 	}
 }
